@@ -211,6 +211,15 @@ def san_signature(kind, text):
                 break
         cls = cls or "ubsan:other"
         m = re.search(r"(/\S+?):(\d+):\d+: runtime error", head)
+        if m and ("/include/c++/" in m.group(1) or m.group(1).startswith("/usr/")):
+            # the faulting line is inside a standard-library header (e.g. operator[] of an empty std::vector): the mechanism is the
+            # innermost frame of the repository that called into it
+            for line in text.splitlines():
+                fm = re.match(r"\s*#(\d+) (?:0x[0-9a-f]+ in )?(.+?) (/\S+?):\d+", line)
+                if fm and "/repo/" in fm.group(3):
+                    fn = re.sub(r"\(.*", "", re.sub(r"<.*?>", "", fm.group(2)))
+                    fn = "::".join([x for x in fn.split("::") if x and not x.startswith("$_") and "operator" not in x][-3:])[:70]
+                    return "%s@%s:%s" % (cls, fm.group(3).split("/")[-1], fn), "repo"
         if m:          # UBSan names the faulting source line itself: no dependence on the (sometimes missing) stack trace
             where = "shim" if "/native/shim/" in m.group(1) else ("harness" if "/verif/native/" in m.group(1) else "repo")
             fn = _enclosing_function(m.group(1), int(m.group(2)))
